@@ -221,7 +221,7 @@ pub fn run(ctx: &Ctx) -> Report {
     rep.assume("a transfer that would take the recipient's balance beyond the 128-bit range has to fail without effect; the simulator's panic in checked arithmetic counts as that failure");
     rep.assume("address codec per history: cosmwasm_std MockApi (3 of 5), the crate's MockApiBech32 / MockApiBech32m with prefix cosmwasm (1 of 5 each); addresses are now and then respelled (non-zero padding bits, upper case), which every codec must reject");
     let req: Vec<String> = match prop.as_str() {
-        "C01" => vec!["e1/atomicity/err_state_unchanged_checks".into(), "e1/sweep/failure_points".into(), "e1/tx/multi/ok".into(), "e1/tx/multi/err".into(), "e1/tx/sudo/err".into(), "e1/tx/wasm_sudo/err".into(), "e1/tx/exec-helper/ok".into(), "e1/tx/mint/err".into(), "e1/opaque/err_state_unchanged_checks".into(), "e1/opaque/multi_equals_sequence_checks".into()],
+        "C01" => vec!["e1/atomicity/err_state_unchanged_checks".into(), "e1/sweep/failure_points".into(), "e1/tx/multi/ok".into(), "e1/tx/multi/err".into(), "e1/tx/sudo/err".into(), "e1/tx/wasm_sudo/err".into(), "e1/tx/exec-helper/ok".into(), "e1/tx/mint/err".into(), "e1/opaque/err_state_unchanged_checks".into(), "e1/opaque/multi_equals_sequence_checks".into(), "e1/addr/call-to-a-contract-created-earlier-in-this-transaction".into()],
         "C02" | "C03" => {
             let mut v = vec![];
             for mode in ["Always", "Error", "Success", "Never"] {
@@ -241,7 +241,7 @@ pub fn run(ctx: &Ctx) -> Report {
             v
         }
         "C04" => vec!["e1/data/data-overridden-by-reply".into(), "e1/data/reply-without-data-keeps-previous".into(), "e1/data/submsg-data-dropped-without-reply".into(), "e1/data/execute-no-data".into(), "e1/data/instantiate-no-data".into(), "e1/responses/events_compared".into(), "e1/entry/Migrate".into(), "e1/entry/Sudo".into()],
-        "C05" => vec!["e1/entries_with_funds".into(), "e1/failure/Overdraft/propagated".into(), "e1/entry/Instantiate".into(), "e1/entry/Reply".into(), "e1/entry/Sudo".into(), "e1/entry/Migrate".into(), "e1/block_changes".into(), "e1/block_changes/same_height".into(), "e1/addr/respelled-address-rejected".into()],
+        "C05" => vec!["e1/entries_with_funds".into(), "e1/failure/Overdraft/propagated".into(), "e1/entry/Instantiate".into(), "e1/entry/Reply".into(), "e1/entry/Sudo".into(), "e1/entry/Migrate".into(), "e1/block_changes".into(), "e1/block_changes/same_height".into(), "e1/block_changes/to_a_lower_height".into(), "e1/addr/respelled-address-rejected".into()],
         "C08" => vec!["e1/accessors/writes_through_contract_storage_mut".into(), "e1/accessors/contracts_compared".into(), "e1/accessors/raw_queries_compared".into(), "e1/state/contract_storages_compared".into()],
         "C10" => vec!["e1/purity/queries_issued_twice".into(), "e1/purity/storage_unchanged_checks".into(), "e1/trace/probes_compared".into(), "e1/staking_query_histories".into(), "stk/pending_vs_raw_state_checked".into()],
         "C11" => vec!["e1/scale/codes_stored".into(), "e1/scale/instantiations".into(), "e1/scale/instances_revisited".into(), "e1/registry/store_code/auto".into(), "e1/registry/store_code/chosen".into(), "e1/registry/duplicate_code/valid".into(), "e1/failure/DuplicateAddress/top-level".into(), "e1/failure/EmptyLabel/propagated".into(), "e1/failure/NoSuchCode/propagated".into(), "e1/accessors/code_info_compared".into()],
